@@ -203,7 +203,7 @@ class VariantMatcher:
             self.req_resp_cache[req_bytes] = resp_bytes
 
     def _get_ident_response(self) -> bytes:
-        if not self._recent_ident_response:
+        if self._recent_ident_response is None:
             raise RuntimeError(
                 "No response available. Did you forget to call 'evaluate()' in a loop?")
         return self._recent_ident_response
